@@ -288,8 +288,56 @@ def long_payload_case(rng, n_octets, kind):
     return Case(line, line, ('long-payload', kind, n_octets > 65000), fail, {'op': 'long-payload', 'note': line})
 
 
+def session_wire_case(rng, default, enc, text, auto):
+    """the same round trip through the real Sender: an ESME configured with `default` as the SMSC's alphabet takes the message
+    from the broker and writes it; what it wrote, read by the decoder under the same configuration, is the text"""
+    from aiosmpplib.protocol import SubmitSm, SmppMessage
+    from corr import c06
+    fail = None
+    try:
+        m = SubmitSm(short_message=text, encoding=enc, auto_message_payload=auto, log_id='w')
+        obs = c06.batch([m], default)
+        written = obs[0]['written'] if obs else []
+        if not obs or obs[0]['errors'] or not written:
+            fail = 'the message was not transmitted (%s)' % (obs[0]['errors'] if obs else 'no observation')
+        elif len(written) == 1:
+            back = SubmitSm.from_pdu(written[0], SmppMessage.parse_header(written[0][:16]), default, None)
+            got = back.short_message or back.message_payload
+            # (packed 7-bit text: a final septet of zeros in the last octet reads back as one '@' - tolerated, see C11)
+            if got != text and not ('packed' in default and got == text + '@'):
+                i = next((k for k, (a, b) in enumerate(zip(got, text)) if a != b), min(len(got), len(text)))
+                fail = ('sent through an ESME with default alphabet %s (encoding %r, auto_message_payload=%s): the PDU on the wire reads '
+                        'back differently from character %d on (%s.. instead of %s..)' % (default, enc, auto, i, ascii(got[i:i + 12]), ascii(text[i:i + 12])))
+    except Exception as e:      # noqa
+        fail = 'sending %d characters through an ESME with default alphabet %s (encoding %r): %r' % (len(text), default, enc, e)
+    line = '# session-wire %s %r auto=%s n=%d' % (default, enc, auto, len(text))
+    return Case(line, line, ('session-wire', default, enc, auto, len(text) > 254), fail,
+                {'op': 'session-wire', 'default': default, 'encoding': enc, 'auto': auto, 'text': [ord(c) for c in text[:400]], 'n': len(text)})
+
+
+def session_wire_cases(rng, thorough, packed_only=False):
+    texts = ['Pay 7$ @ desk_3 [open] {now}', 'caf\xe9 na\xefve \xfcber', 'plain text 123', '\u20ac uro [x]']
+    confs = []
+    if not packed_only:
+        for default in ('latin_1', 'ascii', 'ucs2', 'gsm0338'):
+            for auto in (False, True):
+                confs.append((default, None, auto, rng.choice(texts[:1] + texts[2:]) if default == 'ascii' else rng.choice(texts)))
+        confs.append(('gsm0338', 'ucs2', False, texts[1]))
+        confs.append(('gsm0338', 'latin_1', False, texts[1]))
+    # the packed codec on long texts (beyond any slice or block size a sender may work in), extension characters early on
+    body = ''.join(rng.choice('abcdefghij XYZ') for _ in range(5000))
+    # (an explicit gsm0338_packed under another default is announced as data_coding 0 like the default: not decodable, known)
+    for default, enc in (('gsm0338_packed', None), ('gsm0338_packed', 'gsm0338_packed')):
+        for cut in ((3, 2047, 2049) if thorough else (3,)):
+            t = body[:cut] + '\u20ac[' + body[cut:]
+            confs.append((default, enc, True, t[:rng.choice((2100, 4500))]))
+    for default, enc, auto, text in confs:
+        yield session_wire_case(rng, default, enc, text, auto)
+
+
 def generate(rng, tier):
     thorough = tier == 'thorough'
+    yield from session_wire_cases(rng, thorough)
     n = 4000 if thorough else 900
     pdus = []
     for i in range(n):
@@ -371,6 +419,8 @@ def generate(rng, tier):
 
 
 def replay(inp):
+    if inp.get('op') == 'session-wire':
+        return Case('# ' + str(inp)[:200], '', None, None, inp)
     if inp['op'] == 'dec':
         return dec_case(bytes.fromhex(inp['hex']), inp['default'], 'replay')
     return Case('pdu.%s %s %s' % (inp['op'], L.enc_triple(inp['default']), inp['msg']), '', None, None, inp)
